@@ -113,7 +113,7 @@ def cases(group):
     else:
         thorough = group["tier"] == "thorough"
         for nt in (1, 2, 4):
-            for init in ([0, N - 1] if not thorough else _inits(N)[:-1]):
+            for init in ([0, N - 1, "random"] if not thorough else _inits(N)):
                 for n in ([N, None] if not thorough else [N, None, max(1, N - 1)]):
                     yield dict(mode="calibrated", X=X, init=init, legs=[n], n_trial=nt, equal="all" if thorough and nt == 1 and N <= 5 else "single")
 
@@ -272,7 +272,7 @@ def _judge_run(r, X, D, tol, s, rec, active, init, n_expected, tag):
 
 
 def _fps_reference(X, init, n):
-    s = sel.make("FPS", "sample", initialize=init, n_to_select=n)
+    s = sel.make("FPS", "sample", initialize=init, n_to_select=n)  # same default random_state
     _, exc = sel.fit_quiet(s, X, None)
     return None if exc is not None else [int(i) for i in s.selected_idx_]
 
